@@ -262,6 +262,26 @@ def fcol():
     return st.tuples(st.just("col"), st.sampled_from(KEYS), st.sampled_from(NAMES)).map(list)
 
 
+def _mk_critset(node, env):
+    """["anyset" | "allset", [criterion, ...]]: Criterion.any / Criterion.all given a Python SET of criteria (an Iterable, like a list)"""
+    import pypika_tortoise as P
+
+    items = {prog.build_expr(n, env) for n in node[1]}
+    return P.Criterion.any(items) if node[0] == "anyset" else P.Criterion.all(items)
+
+
+prog.EXTRA_NODES["anyset"] = _mk_critset
+prog.EXTRA_NODES["allset"] = _mk_critset
+
+
+def same_shape_pair(draw_cmp):
+    """one comparison twice: over a column of one table and over the same-named column of another (their un-qualified text is the same)"""
+    def mk(t):
+        name, val, k1, k2 = t
+        return [["eq", ["col", k1, name], ["raw", val]], ["eq", ["col", k2, name], ["raw", val]]]
+    return st.tuples(st.sampled_from(NAMES), st.sampled_from([1, 2]), st.sampled_from(KEYS), st.sampled_from(KEYS)).map(mk)
+
+
 def expr_st():
     leaf = st.one_of(fcol(), fcol(), fcol(), st.sampled_from([1, "v"]).map(lambda v: ["vw", ["raw", v]]))
     crit_kinds = ("eq", "ne", "lt", "ge")
@@ -276,6 +296,9 @@ def expr_st():
             # the neutral element on either side: the collection must not depend on which
             st.tuples(st.sampled_from(("and", "or")), cmp_, st.just(["emptycrit"])).map(list),
             st.tuples(st.sampled_from(("and", "or")), st.just(["emptycrit"]), cmp_).map(list),
+            # criteria collected in a set before they are combined: the same comparison over same-named columns of two tables stays two criteria
+            st.tuples(st.sampled_from(("anyset", "allset")), same_shape_pair(cmp_)).map(list),
+            st.tuples(st.sampled_from(("anyset", "allset")), st.lists(cmp_, min_size=1, max_size=3)).map(list),
             st.tuples(st.just("neg"), ch).map(list),
             st.tuples(st.just("not"), cmp_).map(list),
             st.tuples(st.just("isnull"), ch).map(list),
